@@ -176,7 +176,17 @@ func (e *Exec) havoc(st *State, vars map[*types.Var]bool, fields map[string]type
 	}
 }
 
+func (e *Exec) checkTransitions(st *State, li *loopInfo, ctx *Ctx) {
+	for i, tr := range li.spec.Transitions {
+		goal := e.clause(tr.X, st, nil, li.pos+1, e.info(ctx), clauseInv)
+		e.emit(st, "inv-step", fmt.Sprintf("loop[%s].transition[%d]", li.key, i+1), goal, tr.Tags, li.pos, tr.Src)
+	}
+}
+
 func (e *Exec) checkInvs(st *State, li *loopInfo, phase string, ctx *Ctx) {
+	if phase == "step" {
+		e.checkTransitions(st, li, ctx)
+	}
 	for i, inv := range li.spec.Invariants {
 		goal := e.clause(inv.X, st, nil, li.pos+1, e.info(ctx), clauseInv)
 		e.emit(st, "inv-"+phase, fmt.Sprintf("loop[%s].inv[%d].%s", li.key, i+1, phase), goal, inv.Tags, li.pos, inv.Src)
@@ -354,6 +364,11 @@ func (e *Exec) execRange(s *ast.RangeStmt, label string, st *State, ctx *Ctx, k 
 			"(sortedFrom "+done+" "+rest+")")
 	}
 	e.assumeInvs(head, li, ctx)
+	for v := range vars {
+		if t, ok := head.env[v]; ok {
+			head.ghosts[v.Name()+"@iter"] = t
+		}
+	}
 
 	// 3a. one more iteration
 	body := head.clone()
@@ -508,6 +523,11 @@ func (e *Exec) execFor(s *ast.ForStmt, label string, st *State, ctx *Ctx, k func
 			}
 		}
 		e.assumeInvs(head, li, ctx)
+		for v := range vars {
+			if t, ok := head.env[v]; ok {
+				head.ghosts[v.Name()+"@iter"] = t
+			}
+		}
 		cond := "true"
 		if s.Cond != nil {
 			cond = e.eval(s.Cond, head, ctx)
